@@ -81,7 +81,7 @@ fn main() {
                 verif_seed,
                 workers: arg_after(&args, "--workers").and_then(|s| s.parse().ok()).unwrap_or(16),
                 runs_override: arg_after(&args, "--runs").or_else(|| std::env::var("VERIF_RUNS").ok()).and_then(|s| s.parse().ok()),
-                watchdog: Duration::from_secs(arg_after(&args, "--watchdog").and_then(|s| s.parse().ok()).unwrap_or(60)),
+                watchdog: Duration::from_secs(arg_after(&args, "--watchdog").and_then(|s| s.parse().ok()).unwrap_or(400)),
                 minimise_budget: Duration::from_secs(if tier == Tier::Quick { 30 } else { 180 }),
                 keep_digests: true,
                 write_evidence: !args.iter().any(|a| a == "--no-evidence"),
@@ -207,7 +207,7 @@ fn main() {
                     ser::run_history(&b1, &c1, &o1, 0, &ctx)
                 })
                 .expect("serial run");
-                let knobs = types::SimKnobs { threads, steal_p: 0, log_thin: 4, strategy: types::Strategy::Random, sched_seed: 0 };
+                let knobs = types::SimKnobs { threads, steal_p: 0, log_thin: 4, strategy: types::Strategy::Random, sched_seed: 0, edge_thin: 0 };
                 let (b2, c2, o2) = (g.bytes.clone(), cfg.clone(), ops.clone());
                 let o = simrt::run_sim(&knobs, None, Some(2), move || {
                     let ctx = par::Ctx { unrelated: &[], scratch: &scratch, run_tag: 0 };
@@ -228,6 +228,15 @@ fn main() {
             }
             println!("miri-c09: {} cases, {} threads, {} mismatches", n, threads, bad);
             std::process::exit(if bad == 0 { 0 } else { 1 });
+        }
+        "canary" => {
+            // is the entropy seam live?  same entropy => same std HashMap order; different => different
+            let a = simrt::run_plain(Some(42), 1 << 20, simrt::hashmap_order_canary).unwrap();
+            let b = simrt::run_plain(Some(42), 1 << 20, simrt::hashmap_order_canary).unwrap();
+            let c = simrt::run_plain(Some(43), 1 << 20, simrt::hashmap_order_canary).unwrap();
+            let d = simrt::run_plain(None, 1 << 20, simrt::hashmap_order_canary).unwrap();
+            println!("canary same-entropy {:016x} {:016x} other-entropy {:016x} os-entropy {:016x}", a, b, c, d);
+            std::process::exit(if a == b && a != c { 0 } else { 2 });
         }
         "reference" => props::c08::reference_main(),
         "dwarftest" => {
